@@ -47,11 +47,13 @@ type ACSCfg struct {
 	Index     string `json:"index"`
 	IsDefault string `json:"isDefault,omitempty"`
 	URL       string `json:"url"`
+	RespLoc   string `json:"respLoc,omitempty"` // optional ResponseLocation attribute (saml-metadata 2.2.2); responses still go to Location
 }
 
 type SLOCfg struct {
 	Binding string `json:"binding"`
 	URL     string `json:"url"`
+	RespLoc string `json:"respLoc,omitempty"` // optional ResponseLocation attribute
 }
 
 type SPCfg struct {
@@ -102,6 +104,7 @@ type WorldCfg struct {
 	SharedSP    bool      `json:"sharedSP,omitempty"`   // storage hands out one shared *ServiceProvider per registration
 	NilUnknown  bool      `json:"nilUnknown,omitempty"` // storage flavour: an unknown entity is reported as (nil, nil) instead of an error
 	Presessions []Preseed `json:"presessions,omitempty"`
+	Shadow      bool      `json:"shadow,omitempty"` // compare every undisturbed reply with a re-execution on a fresh provider instance (shadow.go)
 }
 
 // Preseed is a stored auth request that exists before the run starts (a
